@@ -138,3 +138,39 @@ pub fn sqrt_rem_kernel(b: &mut [Word], a: &mut [Word]) -> bool {
     let mut allocation = MemoryAllocation::new(root::memory_requirement_sqrt_rem(b.len()));
     root::sqrt_rem(b, a, &mut allocation.memory())
 }
+
+/// Lehmer gcd kernels (integer/src/gcd/lehmer.rs) at their word-slice boundary: the cosequence guess from the
+/// aligned leading word / double word (given as (low, high)), the aligned leading bits themselves, the
+/// simultaneous linear update `(x, y) = (a*x - b*y, d*y - c*x)` and the unsigned cofactor update
+/// `(x, y) = (a*x + b*y, c*x + d*y)` on the first `len` words (returns the carry words).
+pub fn lehmer_guess(xbar: Word, ybar: Word) -> (Word, Word, Word, Word) {
+    crate::gcd::lehmer_verif::guess(xbar, ybar)
+}
+
+pub fn lehmer_guess_dword(xbar: (Word, Word), ybar: (Word, Word)) -> (Word, Word, Word, Word) {
+    crate::gcd::lehmer_verif::guess_dword(xbar, ybar)
+}
+
+pub fn lehmer_top_word(x: &[Word], y: &[Word]) -> (Word, Word) {
+    crate::gcd::lehmer_verif::top_word(x, y)
+}
+
+pub fn lehmer_top_dword(x: &[Word], y: &[Word]) -> ((Word, Word), (Word, Word)) {
+    crate::gcd::lehmer_verif::top_dword(x, y)
+}
+
+pub fn lehmer_step(x: &mut [Word], y: &mut [Word], a: Word, b: Word, c: Word, d: Word) {
+    crate::gcd::lehmer_verif::step(x, y, a, b, c, d)
+}
+
+pub fn lehmer_ext_step(
+    x: &mut [Word],
+    y: &mut [Word],
+    len: usize,
+    a: Word,
+    b: Word,
+    c: Word,
+    d: Word,
+) -> (Word, Word) {
+    crate::gcd::lehmer_verif::ext_step(x, y, len, a, b, c, d)
+}
